@@ -80,6 +80,15 @@ def run_case(case):
 
     sch = build.schema(T)
     obj = build.value_from(sch, T, v)
+    if case.get('tape') is not None:
+        # the value object comes out of a construction history (C04's: any order, top-down, CHOICE detours re-selected in place)
+        from pv.checks import c04
+        try:
+            o2 = c04.build_with_history(c04.Tape(tape=case['tape']), sch, T, v)
+            if absval.equal(T, o2, v, sch)[0]:
+                obj = o2
+        except Exception:
+            pass
     try:
         py = nenc.encode(obj)
     except error.PyAsn1Error as e:
@@ -132,8 +141,10 @@ def nontrivial(T, v):
 
 def run_shard(desc, seed, tier, col):
     def body(x):
-        T, v = x
+        T, v, tape = x
         case = {'T': T, 'v': v}
+        if tape is not None:
+            case['tape'] = tape
         feats = ['depth=%d' % ir.depth(T)]
         for t, y in fz.present_nodes(T, v):
             if t['k'] in ir.RECORD_KINDS and any(c['p'] == 'opt' and c['name'] not in y for c in t['comps']):
@@ -155,7 +166,16 @@ def run_shard(desc, seed, tier, col):
         d = gen.D(draw, dict(gen.DEFAULT_CFG, **CFG))
         if d.pct(6):
             T, v = gen.choice_default_case(d)
-        return T, v
+        tape = None
+        if d.pct(35):
+            from pv.checks import c04
+            t = c04.Tape(draw=draw)
+            try:
+                c04.build_with_history(t, build.schema(T), T, v)
+                tape = t.tape
+            except Exception:
+                tape = t.tape
+        return T, v, tape
 
     harness.run_given(cases(), body, seed, desc['examples'], col)
 
